@@ -242,7 +242,9 @@ def build(ctx):
                     ra, rb = list(o.heap["ghost"].get("cumtrapz", {}).items()), list(o2.heap["ghost"].get("cumtrapz", {}).items())
                     if len(ra) != 1 or len(rb) != 1 or ra[0][1]["y"]((k,)) is not rb[0][1]["y"]((k,)) or tm.subst(a, {tm.app(ra[0][0], [k]): tm.app(rb[0][0], [k])}) is not b_:
                         return be.Verdict(be.REFUTED, "STRUCT", witness={}, detail="without a cache the interpolator is not built from recovery_factor() of the current state")
-                if I.mode != "fill" or I.fill_lo is not tm.const(0) and not (tm.is_const(I.fill_lo) and tm.cval(I.fill_lo) == 0):
+                # 0 before the first time: the literal 0, or recovery[0], which is 0 by C03 rf.*.zero_at_start (for a cache: by cache_ok)
+                zero_lo = (tm.is_const(I.fill_lo) and tm.cval(I.fill_lo) == 0) or I.fill_lo is I.yf(tm.const(0))
+                if I.mode != "fill" or not zero_lo:
                     return be.Verdict(be.REFUTED, "STRUCT", witness={}, detail="fill value before the first time is not 0")
                 if I.fill_hi is not I.yf(tm.sub(nt, tm.const(1))):
                     return be.Verdict(be.REFUTED, "STRUCT", witness={}, detail="fill value after the last time is not the final recovery")
